@@ -42,8 +42,16 @@ func NewSample(values []float64, t *Thresholds) *Sample {
 	// TODO: Analyze stationarity and put results in Warnings.
 	// Consider Augmented Dickey–Fuller (based on Maricq et al.)
 
-	// Sort values for fast order statistics.
-	sort.Float64s(values)
+	// Sort values for fast order statistics. Negative zero sorts
+	// before positive zero so that the order (and hence which zero
+	// a median or mode reports) doesn't depend on the input order.
+	sort.Slice(values, func(i, j int) bool {
+		a, b := values[i], values[j]
+		if a == b {
+			return math.Signbit(a) && !math.Signbit(b)
+		}
+		return a < b || (math.IsNaN(a) && !math.IsNaN(b))
+	})
 	return &Sample{values, t, nil}
 }
 
